@@ -209,9 +209,10 @@ CHECKS = {
             "| & ^, concatenation, * + ? and {lo,hi} {lo,} {,hi} with every bound shape (C10_build_lang, with the fragment invariant "
             "C10_fragment_invariant); NFA.from_regex as a whole returns a valid NFA with the denoted language (C10_from_regex_sound) and cannot fail on literals of the alphabet (C10_from_regex_total); "
             "parsing the minimal-parenthesis printing of any AST returns the AST (precedence postfix > concatenation > binary, left "
-            "associative), a redundant outer pair of parentheses and blanks at token boundaries change nothing. Partial: printing is at "
-            "token level (no decimal rendering of bounds to characters); redundant parentheses are proved for the outer pair only, inner "
-            "ones are covered by the correspondence. Model tied to the code by nfa_diff between from_regex's NFA and the model's, exact "
+            "associative); redundant parentheses around ANY sub-expression occurrences (C10_redundant_parens: decorated ASTs) and blanks at "
+            "token boundaries change nothing; the round trip holds on CHARACTER strings with a decimal printer of the bounds "
+            "(C10_show_quant: lex (show_quant lo hi) = [QuantTok lo hi]; C10_parse_show: parse_regex of the printed characters, with extra "
+            "parentheses and blanks anywhere, returns the AST). Model tied to the code by nfa_diff between from_regex's NFA and the model's, exact "
             "AST comparison, and accepts_input vs an independent evaluator on all words up to length 6.",
             "Defect demonstrated on the unrepaired tree: upper bound 0 (a{0,0}) still accepts one copy.", "7/C10"),
     "C11": ("Coq theorems about the same regex front-end model and a model of regex.py's helpers + differential correspondence "
